@@ -114,3 +114,37 @@ def run_stored():
                     return checked, {'case': case, 'limiter': '%s.%s' % (mname, dname), 't': float(t[i]), 'device': int(k),
                                      'observed': 'stored state %r outside [%r, %r] by %.3e' % (float(xs[i, k]), float(lo[k]), float(up[k]), float(exc[i, k]))}
     return checked, (None if released > 0 else {'observed': 'no anti-windup state was pegged and released in any run: the check is vacuous'})
+
+
+def run_moving_limit():
+    """a state stays pegged at an upper limit that moves between two evaluations (limits that are variables: a low-voltage power logic, a
+    voltage-dependent ceiling): after each evaluation the pegged state holds the limit of THAT evaluation, its derivative is zero, and the
+    write-back entry (x_set) the integrator uses carries that same current value"""
+    import numpy as np
+    from andes.core.discrete import AntiWindup
+    from contracts.fn_discrete import _P
+    n = 0
+    for limits in ((1.0, 0.6, 0.3), (0.9, 0.9), (1.0, 1.0, 0.2)):      # falling or constant limits: the state stays pegged
+        st = _P([2.0], 'x')
+        st.e = np.array([0.5])          # pushing against the upper limit all the time
+        st.a = np.array([3])
+        up = _P([limits[0]], 'upper')
+        aw = AntiWindup(st, _P([-1.0], 'lower'), up)
+        aw.list2array(1)
+        aw.zu0 = np.zeros(1)
+        aw.zl0 = np.zeros(1)
+        for it, lim in enumerate(limits):
+            n += 1
+            up.v[:] = lim
+            st.v[:] = max(st.v[0], lim + 0.1) if it == 0 else st.v      # first above the limit; later the value the integrator wrote back
+            st.e[:] = 0.5
+            aw.check_var()
+            aw.check_eq(niter=0)
+            what = {'upper limit over successive evaluations': list(limits[:it + 1]), 'derivative': 0.5}
+            if float(st.v[0]) != lim or float(st.e[0]) != 0.0:
+                return n, dict(what, observed='after evaluation %d the state is %r with derivative %r, the limit is %r' % (it, float(st.v[0]), float(st.e[0]), lim))
+            entries = [(np.asarray(a).tolist(), np.asarray(v).tolist()) for a, v, _ in aw.x_set]
+            if entries != [([3], [lim])]:
+                return n, dict(what, observed='write-back entries after evaluation %d: %r, expected the current limit %r at address 3' % (it, entries, lim))
+            st.v[:] = aw.x_set[0][1]          # what System.fg_to_dae writes into dae.x
+    return n, None
